@@ -29,6 +29,7 @@ RULE += (' Also: defaults equal to everything / refusing comparison.')
 RULE += (' Also: key functions giving equal / identical keys that cannot be ordered.')
 RULE += (' Also: a class-based source that reports its remaining length.')
 RULE += (' Also: values equal across types (1, 1.0, True) under a key that tells them apart.')
+RULE += (' Also: sums whose running total becomes text along the way (reflected additions answering with str).')
 ASSUMPTIONS = ["builtins/functools/heapq of the running interpreter (3.12) are the reference, incl. compensated float sum"]
 EXHAUSTIVE = {"quick": False, "thorough": False}
 N_RANDOM = {"quick": 150000, "thorough": 8000000}
